@@ -6,7 +6,7 @@ print("| seeded change | property | needs | caught by (quick tier) | failed obli
 print("|---|---|---|---|---|")
 for f in sorted(glob.glob(os.path.join(HERE, "seeded", "*", "meta.json"))):
     m = json.load(open(f))
-    notes = " ".join(m.get("what_it_needs", "").split())[:160]
+    notes = " ".join(m.get("what_it_needs", "").replace("|", "/").split())[:160]
     caught = ", ".join(m.get("caught_by", [])) or "**missed**"
     obl = ""
     for ck, v in m.get("checks", {}).items():
